@@ -1,9 +1,11 @@
 import IkeModel
 import IkeModel.Spec.Wire
+import IkeModel.Spec.Parse
 
 /-! Driver operations for C05 (glue only: parsing, derivation of the liberties, printing).
 
     spec-enc <seed> <msg input form>   -> ok x<octets> | err | panic       (Spec.encode)
+    spec-parse x<octets>               -> some <msg output form> | none     (Spec.parse, the strict RFC 7296 parser)
 
 The liberties (`Spec.Lib`, one per payload) are derived from `<seed>` by the
 linear congruential generator below.  Seed 0 = no liberties (canonical, strict
@@ -131,9 +133,18 @@ def specEncOp (ts : Array String) : String :=
     | none => "bad-msg"
   | _, _ => "bad-args"
 
+def specParseOp (ts : Array String) : String :=
+  match (ts[1]?).bind parseX with
+  | some b =>
+    match Spec.parse b with
+    | some m => "some " ++ (sxMsg m).toStr
+    | none => "none"
+  | none => "bad-hex"
+
 end DriverSpec
 
 def handleSpec (ts : Array String) : Option String :=
   if h : 0 < ts.size then
-    if ts[0] == "spec-enc" then some (DriverSpec.specEncOp ts) else none
+    if ts[0] == "spec-enc" then some (DriverSpec.specEncOp ts)
+    else if ts[0] == "spec-parse" then some (DriverSpec.specParseOp ts) else none
   else none
